@@ -161,8 +161,12 @@ def _extract_omega_delta_phi(
             ):
                 raise ValueError(f"Input {name} has non-zero imaginary part.")
 
-            pchip = PCHIP1D(t_grid, signal.real)
-            data_mid[:, q_pos] = pchip(t_mid)
+            if t_grid.numel() < 2:
+                # A 1 ns sequence has a single sample: nothing to interpolate.
+                data_mid[:, q_pos] = signal.real[0]
+            else:
+                pchip = PCHIP1D(t_grid, signal.real)
+                data_mid[:, q_pos] = pchip(t_mid)
             if name == "amp":
                 data_mid[-1, q_pos] = torch.where(
                     data_mid[-1, q_pos] > 0,
@@ -298,6 +302,32 @@ class PulserData:
             sequence._slm_mask_time[1] if len(sequence._slm_mask_time) > 1 else 0.0
         )
 
+    def _expand_to_register(
+        self,
+        noisy_samples: SequenceSamples,
+        omega: torch.Tensor,
+        delta: torch.Tensor,
+        phi: torch.Tensor,
+    ) -> tuple[torch.Tensor, torch.Tensor, torch.Tensor]:
+        """
+        Qubits that no channel addresses are absent from the extracted drives:
+        give them a zero drive, so that every atom of the register is emulated.
+        """
+        if omega.shape[1] == self.qubit_count:
+            return omega, delta, phi
+        local_samples = noisy_samples.to_nested_dict(all_local=True)["Local"]
+        addressed = next(iter(local_samples.values()))
+        columns = [i for i, qid in enumerate(self.qubit_ids) if qid in addressed]
+
+        def expand(drive: torch.Tensor) -> torch.Tensor:
+            full = torch.zeros(
+                drive.shape[0], self.qubit_count, dtype=drive.dtype, device=drive.device
+            )
+            full[:, columns] = drive
+            return full
+
+        return expand(omega), expand(delta), expand(phi)
+
     def get_sequences(self) -> Iterator[SequenceData]:
         for samples in self.hamiltonian.noisy_samples:
             full_interaction_matrix = (
@@ -325,6 +355,9 @@ class PulserData:
 
             omega, delta, phi = _extract_omega_delta_phi(
                 samples.samples, self.qubit_ids, self.target_times
+            )
+            omega, delta, phi = self._expand_to_register(
+                samples.samples, omega, delta, phi
             )
 
             interaction_matrix = _InteractionMatrixCallable(
